@@ -76,6 +76,20 @@ class Ensemble:
     peering_tasks: dict[EnsembleKey, aiotasks.Task] = dataclasses.field(default_factory=dict)
     pinging_tasks: dict[EnsembleKey, aiotasks.Task] = dataclasses.field(default_factory=dict)
 
+    # The first failure of any of the tasks above, and the orchestrator's task to escalate it to.
+    failure: BaseException | None = None
+    supervisor: aiotasks.Task | None = None
+
+    def supervise(self, task: aiotasks.Task) -> None:
+        """ Escalate the task's failure (if any happens) to the orchestrator, and so to the operator. """
+        task.add_done_callback(self._escalate)
+
+    def _escalate(self, task: aiotasks.Task) -> None:
+        if not task.cancelled() and task.exception() is not None and self.failure is None:
+            self.failure = task.exception()
+            if self.supervisor is not None:
+                self.supervisor.cancel()
+
     def get_keys(self) -> Collection[EnsembleKey]:
         return (frozenset(self.watcher_tasks) |
                 frozenset(self.peering_tasks) |
@@ -115,6 +129,7 @@ async def orchestrator(
         peering_missing=peering_missing,
         operator_paused=operator_paused,
         operator_indexed=aiotoggles.ToggleSet(all),
+        supervisor=asyncio.current_task(),
     )
     try:
         async with insights.revised:
@@ -130,6 +145,9 @@ async def orchestrator(
     except asyncio.CancelledError:
         tasks = ensemble.get_tasks(ensemble.get_keys())
         await aiotasks.stop(tasks, title="streaming", logger=logger, interval=10)
+        if ensemble.failure is not None:  # i.e. cancelled by a failed task, not from outside.
+            raise RuntimeError("A watcher or a peering task has failed. "
+                               "The operator will stop to prevent damage.") from ensemble.failure
         raise
 
 
@@ -209,6 +227,7 @@ async def spawn_missing_peerings(
                     resource=resource,
                     settings=settings,
                     identity=identity))
+            ensemble.supervise(ensemble.pinging_tasks[dkey])
             ensemble.peering_tasks[dkey] = aiotasks.create_guarded_task(
                 name=f"peering observer for {what}", logger=logger, cancellable=True,
                 coro=queueing.watcher(
@@ -221,6 +240,7 @@ async def spawn_missing_peerings(
                                                 resource=resource,
                                                 settings=settings,
                                                 identity=identity)))
+            ensemble.supervise(ensemble.peering_tasks[dkey])
 
     # Ensure that all guarded tasks got control for a moment to enter the guard.
     await asyncio.sleep(0)
@@ -259,6 +279,7 @@ async def spawn_missing_watchers(
                     resource=resource,
                     namespace=namespace,
                     processor=functools.partial(processor, resource=resource)))
+            ensemble.supervise(ensemble.watcher_tasks[dkey])
 
     # Unblock globally, let the specialised per-resource-kind blockers hold the readiness.
     await ensemble.operator_indexed.drop_toggle(operator_blocked)
